@@ -26,13 +26,22 @@ Proof. exact obj_process_no_token. Qed.
 Theorem C05_unregistered_silent : forall e x x' e', src_unregister e x = (true, x', e') -> src_silent x'.
 Proof. exact src_unregister_silent. Qed.
 
+(* a cancelled arming (disable, remove, the unregister half of update/enable - also of a Timer that is a sub-source of a
+   composite) leaves the wheel, so by C05_expire it can never fire; every other arming stays. Counters are unique in the wheel
+   except after the stale-batch-event corner of finding F5, which is why that is a hypothesis here *)
+Theorem C05_cancelled_arming_leaves_wheel : forall e t tk c, tm_reg t = Some (tk, c) -> NoDup (map w_ctr (wh_heap (whl e))) ->
+  ~ In c (map w_ctr (wh_heap (whl (snd (timer_unregister e t))))).
+Proof. intros e t tk c H Hnd. unfold timer_unregister. rewrite H. cbn. apply wh_cancel_removes. exact Hnd. Qed.
+Theorem C05_cancel_keeps_other_armings : forall w c e, In e (wh_heap w) -> w_ctr e <> c -> In e (wh_heap (wh_cancel w c)).
+Proof. exact wh_cancel_keeps. Qed.
+
 (* KNOWN FINDING F5 (recorded, not repaired): the whole-history statement "each arming fires exactly once, never early"
    is refuted by re-arming a timer from another callback while its expiry is already in the batch: the model reproduces
    the early callback (deadline 12 delivered at phase 1, i.e. now = 3). *)
 Definition F5_scr : scripts := fun h =>
   if h =? 1 then [mkScript [ASetDl 2 12; AUpdate 2] 0 0%Z] else if h =? 2 then [mkScript [] 1 16%Z] else [].
 Definition F5_cmds : list cmd :=
-  [CAct (AInsert 1 (SComp false None [mkGen 10 (mkInt true false) Level None false]));
+  [CAct (AInsert 1 (SComp false None [mkGen 10 (mkInt true false) Level None false] None));
    CAct (AInsert 2 (STimer (mkTimer None (Some 2%Z) false)));
    CAct (AFdWrite 10 1); CDispatch 1%Z [1; 4294967296]].
 Theorem C05_F5_refuted : In (L T_CB [2; 0; 12]%Z) (trace_of (run F5_scr (fun _ => []) F5_cmds)).
